@@ -80,6 +80,43 @@ def growth_guards(ctx):
             ctx.bad(o, "add_at_tail at %s is not guarded by: %s" % (bad[0][0].line(), fmt_missing(bad[0][1])), loc=bad[0][0].line())
         else:
             ctx.ok(o, "%d growth site(s), all guarded" % len(sites))
+    # comparator recogniser: growth is refused when count >= limit
+    o, fdc = ctx.require_fn("R2.guards-refuse-at-limit", "T12", VRTF,
+                            "a vehicle is refused when the formation already has as many vehicles as the limit / the slot as many as tracks (>=)")
+    if fdc is not None:
+        found = []
+        for ins in fdc.body.instrs():
+            if ins.kind != "assign" or ins.rv_kind() != "binop" or ins.rv["op"] not in ("Ge", "Gt", "Le", "Lt"):
+                continue
+            a = fdc.slice_operand_pure(ins, ins.ops[0])["atoms"]
+            b = fdc.slice_operand_pure(ins, ins.ops[1])["atoms"]
+            cnt = call(TRAINF + "::vehicle_count")
+            lim = (call(MFC), call(N("track_count_of_maintenance_slot")))
+            if cnt in a and any(x in b for x in lim):
+                found.append((ins, ins.rv["op"]))
+            elif cnt in b and any(x in a for x in lim):
+                found.append((ins, {"Ge": "Le", "Gt": "Lt", "Le": "Ge", "Lt": "Gt"}[ins.rv["op"]]))
+        bad = [(i, op) for i, op in found if op == "Gt"]
+        und = [(i, op) for i, op in found if op not in ("Ge", "Gt")]
+        if len(found) < 2:
+            ctx.undecided(o, "expected two count-vs-limit comparisons, recognised %d" % len(found))
+        elif bad:
+            ctx.bad(o, "`vehicle_count > limit` at %s lets a formation that is exactly full take one more vehicle" % ", ".join(i.line() for i, _ in bad),
+                    loc=bad[0][0].line())
+        elif und:
+            ctx.undecided(o, "comparison form not recognised: %s" % [(i.line(), op) for i, op in und])
+        else:
+            # polarity: the true edge leads to the Err return
+            ok = True
+            for i, op in found:
+                for b_, (sw, uses) in fdc.switches.items():
+                    if i.place.local in fdc.slice(seed_locals=uses, control=False)["locals"] and fdc.cfg.instr_dominates(i, sw):
+                        tb = sw.otherwise
+                        errs = [x for x in fdc.body.instrs() if x.kind == "assign" and x.place.local == 0 and x.rv_kind() == "agg"
+                                and x.rv.get("v") == "Err"]
+                        if not any(e.bb in fdc.cfg.reachable_from(tb) for e in errs):
+                            ok = False
+            ctx.decide(o, ok, "%d comparisons of the form count >= limit => Err" % len(found), "a count >= limit comparison does not lead to the refusal")
     # writes to train_formations of a Schedule only through update_train_formation / update_tours
     sites = common.sites_of(ctx, SCHEDULE)
     allowed = {UTF, S("update_tours")}
@@ -103,6 +140,15 @@ def depot_limits(ctx):
                  call(S("number_of_vehicles_of_same_type_spawned_at_custom_usage")),
                  call(S("number_of_vehicles_spawned_at_custom_usage")), "param:4"],
                 "spawn permission depends on per-type capacity, total capacity, both usage counters and the usage map given")
+    for fn in ("can_depot_spawn_vehicle_custom_usage", "number_of_vehicles_of_same_type_spawned_at_custom_usage",
+               "number_of_vehicles_spawned_at_custom_usage"):
+        o, fdx = ctx.require_fn("R4.%s.uses-given-usage-only" % fn, "T1", S(fn),
+                                "%s consults only the depot usage it is given (never the schedule's stored one)" % fn)
+        if fdx is not None:
+            at = fdx.ret_slice()["atoms"]
+            ctx.decide(o, field(SCHEDULE, "depot_usage") not in at,
+                       "self.depot_usage is not read", "the result also depends on self.depot_usage: during improve_depots the working "
+                       "copy and the stored usage differ, so a capacity test reads stale counts")
     must_depend(ctx, "R4.capacity_for-sources", "T1", DEPOT + "::capacity_for", "ret",
                 [field(DEPOT, "allowed_types"), field(DEPOT, "total_capacity"), "param:2"],
                 "Depot::capacity_for combines the per-type entry with the total capacity")
